@@ -1,0 +1,13 @@
+//go:build !verif
+
+package taskctl
+
+import "github.com/taskctl/taskctl/pkg/scheduler"
+
+// Verification hooks: without the "verif" build tag these are empty and get inlined away.
+
+func verifNewScheduler(s *Scheduler)                         {}
+func verifLoopTop(s *Scheduler, g *scheduler.ExecutionGraph) {}
+func verifVisit(s *Scheduler, stage *scheduler.Stage)        {}
+func verifCancel(s *Scheduler)                               {}
+func verifReturn(s *Scheduler)                               {}
